@@ -764,6 +764,12 @@ impl<T: Config> UdpProtocol<T> {
             let last_recv_frame = self.last_recv_frame();
             self.recv_inputs
                 .retain(|&k, _| k >= last_recv_frame - 2 * self.max_prediction as i32);
+        } else if decode_frame < self.last_recv_frame() {
+            // The sender encoded against a frame we have already dropped from `recv_inputs`, so
+            // our acks for everything since must have been lost. We cannot decode this packet,
+            // but unless we tell the sender what we have, it will keep retransmitting from the
+            // same base forever (a spectator link carries acks only in `InputAck` messages).
+            self.send_input_ack();
         }
     }
 
